@@ -8,6 +8,7 @@ import (
 	"fmt"
 	"hash/maphash"
 	"runtime"
+	"runtime/debug"
 	"runtime/metrics"
 	"sort"
 	"strings"
@@ -24,7 +25,13 @@ type Entry struct {
 	Box        time.Duration          // per-call deadline (default 2 s)
 	AllocConst uint64                 // allocation ceiling constant (default 64 KiB); the ceiling is AllocConst + 256 * len(input)
 	Net        bool                   // network-facing (the exhaustive prefix is longest here)
-	idx        int
+	// Suffix (optional): a specific tail for the keys of this entry's violations (hang:<entry>:<suffix>), derived from the input
+	Suffix func(in []byte) string
+	// Judge (optional): scenario entries decide more than panic / deadline / allocation themselves (a goroutine or heap leak,
+	// a loop that is proven not to end by counting the requests it sends, a growth ratio): the verdict token is mapped to
+	// (kind, explanation); kind "" = no violation, "inconclusive" = the measurement did not settle (exit 2, never a violation).
+	Judge func(in []byte, verdict string) (kind, what string)
+	idx   int
 }
 
 type Violation struct {
@@ -62,7 +69,9 @@ type Runner struct {
 	slots      *slots
 	worker     *callWorker
 	allocRetry int64
+	lateReturns int64 // calls that came back after their box (repeated; see Call)
 	seconds    map[string]float64
+	unsettled  []string // measurements that did not settle (reported as harness errors: inconclusive)
 }
 
 func newRunner(entries []*Entry, genesisTS uint32) *Runner {
@@ -139,11 +148,17 @@ func siteOf() (top, lisk string) {
 
 // ---------------------------------------------------------------------------------------- bookkeeping
 
-func (r *Runner) violation(key, what string, e *Entry, in []byte) {
+func (r *Runner) violation(key, what string, e *Entry, in []byte) { r.violationX(key, what, e, in, nil) }
+
+// violationX: extra = further members of the replay record (scenario entries that are not a single call: "scenario": "leak" | "amp" ...)
+func (r *Runner) violationX(key, what string, e *Entry, in []byte, extra map[string]interface{}) {
 	r.mu.Lock()
 	defer r.mu.Unlock()
 	r.perKey[key]++
 	rep := map[string]interface{}{"entry": e.Name, "input_hex": hex.EncodeToString(in), "genesis_ts": r.genesisTS}
+	for k, v := range extra {
+		rep[k] = v
+	}
 	if n, ok := r.shortest[key]; ok {
 		// keep the shortest input per key
 		if len(in) < n {
@@ -259,10 +274,37 @@ func allocExact() uint64 {
 
 const suspicious = 16 << 10 // cheap reading above this: the call is repeated under the exact measurement
 
+// gross: a reading this far above the ceiling is not background noise of other goroutines.  The garbage of the call is
+// collected before it is measured again (two or three live copies of a multi-gigabyte slice would end the process with
+// "out of memory" before the verdict is written) and one confirmation is enough.
+const gross = 256 << 20
+
+// default allocation ceiling: allocConstDefault + allocPerByte * len(input).  The property asks for "memory bounded by the
+// input size": a constant of a few hundred KiB (buffers, caches, error values) plus a linear term.
+const (
+	allocConstDefault = 512 << 10
+	allocPerByte      = 1024
+)
+
+func (e *Entry) suffix(in []byte) string {
+	if e.Suffix == nil {
+		return ""
+	}
+	if s := e.Suffix(in); s != "" {
+		return ":" + s
+	}
+	return ""
+}
+
 // Call runs one measured call. origin names the generator; trivial marks the unmodified valid message.
 func (r *Runner) Call(e *Entry, in []byte, origin string, trivial bool) string {
 	if _, off := r.disabled[e.Name]; off {
 		return "disabled"
+	}
+	if e.Suffix != nil {
+		if _, off := r.disabled[e.Name+"|"+e.Suffix(in)]; off {
+			return "disabled"
+		}
 	}
 	atomic.AddInt64(&r.evals, 1)
 	atomic.AddInt64(r.perEntry[e.Name], 1)
@@ -276,11 +318,13 @@ func (r *Runner) Call(e *Entry, in []byte, origin string, trivial bool) string {
 	}
 	ceiling := e.AllocConst
 	if ceiling == 0 {
-		ceiling = 64 << 10
+		ceiling = allocConstDefault
 	}
-	ceiling += 256 * uint64(len(in))
+	ceiling += allocPerByte * uint64(len(in))
 	var res callRes
 	exact := false
+	grossSeen := false
+	late := 0
 	t0 := time.Now()
 	for attempt := 0; ; attempt++ {
 		if r.slots != nil {
@@ -308,15 +352,35 @@ func (r *Runner) Call(e *Entry, in []byte, origin string, trivial bool) string {
 		select {
 		case res = <-done:
 		case <-timer.C:
-			hung = true
+			// the box expired.  A call that never returns is a hang; one that returns late may be the machine (this check
+			// shares the processors with TLC and other jobs): it is given a grace period and, if it comes back, repeated - only
+			// three late returns in a row count as a miss of the deadline.
+			grace := 4 * box
+			if grace < 30*time.Second {
+				grace = 30 * time.Second
+			}
+			select {
+			case res = <-done:
+				r.lateReturns++
+				if late++; late < 3 && !res.panicked {
+					if r.slots != nil {
+						r.slots.clear(0)
+					}
+					attempt-- // (not one of the allocation measurements)
+					continue
+				}
+				hung = !res.panicked
+			case <-time.After(grace):
+				hung = true
+				r.worker = nil // abandoned with its goroutine
+			}
 		}
 		if r.slots != nil {
 			r.slots.clear(0)
 		}
 		if hung {
-			r.worker = nil // abandoned with its goroutine
 			r.hangs[e.Name]++
-			r.violation("hang:"+e.Name, fmt.Sprintf("%s did not return within %v on a %d-byte input", e.Name, box, len(in)), e, in)
+			r.violation("hang:"+e.Name+e.suffix(in), fmt.Sprintf("%s did not return within %v on a %d-byte input", e.Name, box, len(in)), e, in)
 			if r.hangs[e.Name] >= 3 {
 				r.disabled[e.Name] = "3 calls missed the deadline"
 			}
@@ -333,8 +397,13 @@ func (r *Runner) Call(e *Entry, in []byte, origin string, trivial bool) string {
 			break
 		}
 		if !exact {
-			if delta <= suspicious && delta <= ceiling {
-				break
+			if delta <= ceiling && (delta <= suspicious || e.AllocConst >= 64<<20) {
+				break // (a scenario entry with a ceiling of tens of megabytes is not repeated for a reading of kilobytes)
+			}
+			if delta > 4*ceiling+gross {
+				grossSeen = true
+				runtime.GC()
+				debug.FreeOSMemory()
 			}
 			exact = true // repeat under the exact measurement
 			r.allocRetry++
@@ -343,9 +412,13 @@ func (r *Runner) Call(e *Entry, in []byte, origin string, trivial bool) string {
 		if delta <= ceiling {
 			break
 		}
-		if attempt >= 3 {
-			// three exact measurements in a row above the ceiling: not background noise
-			r.violation("alloc:"+e.Name, fmt.Sprintf("%s allocated %d bytes on a %d-byte input (ceiling %d)", e.Name, delta, len(in), ceiling), e, in)
+		if delta > gross {
+			runtime.GC()
+			debug.FreeOSMemory()
+		}
+		if attempt >= 3 || (grossSeen && delta > 4*ceiling+gross) {
+			// three exact measurements in a row above the ceiling (or two far above it): not background noise
+			r.violation("alloc:"+e.Name+e.suffix(in), fmt.Sprintf("%s allocated %d bytes on a %d-byte input (ceiling %d)", e.Name, delta, len(in), ceiling), e, in)
 			break
 		}
 	}
@@ -354,10 +427,49 @@ func (r *Runner) Call(e *Entry, in []byte, origin string, trivial bool) string {
 		key := "panic:" + e.Name + ":" + res.top
 		r.violation(key, fmt.Sprintf("%s panicked on a %d-byte input: %s [at %s]", e.Name, len(in), res.pv, res.lisk), e, in)
 		res.verdict = "panic"
+	} else if e.Judge != nil {
+		switch kind, what := e.Judge(in, res.verdict); kind {
+		case "":
+		case "inconclusive":
+			r.mu.Lock()
+			r.unsettled = append(r.unsettled, e.Name+e.suffix(in)+": "+what)
+			r.mu.Unlock()
+		default:
+			if strings.HasPrefix(kind, "panic@") {
+				// a panic the scenario recovered on a goroutine of its own: same key format as a panic under protect()
+				r.violation("panic:"+e.Name+":"+kind[6:], what, e, in)
+				res.verdict = "panic"
+			} else {
+				r.violation(kind+":"+e.Name+e.suffix(in), what, e, in)
+			}
+		}
 	}
 	r.verdicts[e.Name][res.verdict]++
 	r.note(e, in, origin, res.verdict)
 	return res.verdict
+}
+
+// Account books a scenario case that was executed outside Call (several independent cases at the same time, each with a
+// deadline of its own): counters, verdict, the entry's Judge.
+func (r *Runner) Account(e *Entry, in []byte, origin, verdict string) {
+	atomic.AddInt64(&r.evals, 1)
+	atomic.AddInt64(r.perEntry[e.Name], 1)
+	r.perOrigin[origin]++
+	r.seen[r.hash(e, in)] = struct{}{}
+	if e.Judge != nil {
+		switch kind, what := e.Judge(in, verdict); {
+		case kind == "":
+		case kind == "inconclusive":
+			r.unsettled = append(r.unsettled, e.Name+e.suffix(in)+": "+what)
+		case strings.HasPrefix(kind, "panic@"):
+			r.violation("panic:"+e.Name+":"+kind[6:], what, e, in)
+			verdict = "panic"
+		default:
+			r.violation(kind+":"+e.Name+e.suffix(in), what, e, in)
+		}
+	}
+	r.verdicts[e.Name][verdict]++
+	r.note(e, in, origin, verdict)
 }
 
 // ---------------------------------------------------------------------------------------- exhaustive sweep
@@ -541,7 +653,9 @@ func (r *Runner) Exhaustive(entries []*Entry, lenOf, alphaLenOf func(*Entry) int
 				last[w] = &watch{s, p, time.Now()}
 				continue
 			}
-			if time.Since(l.since) < 2*time.Second {
+			// (a worker that does not advance for 2 s on a three-byte input may simply not have been scheduled: the machine is
+			// shared.  Only a call that has not returned after sweepStuck is treated as one that never returns.)
+			if time.Since(l.since) < sweepStuck {
 				continue
 			}
 			t := w.cur.Load().(task)
@@ -571,6 +685,8 @@ func (r *Runner) Exhaustive(entries []*Entry, lenOf, alphaLenOf func(*Entry) int
 	r.perOrigin["exhaustive"] += total
 	return total, time.Since(t0)
 }
+
+const sweepStuck = 40 * time.Second
 
 func (e *Entry) counter(r *Runner) *int64 { return r.perEntry[e.Name] }
 
@@ -604,6 +720,8 @@ type Report struct {
 	Errors             []string                    `json:"harness_errors"`
 	Info               map[string]interface{}      `json:"info"`
 	AllocRetries       int64                       `json:"alloc_retries"`
+	LateReturns        int64                       `json:"late_returns"`
+	Incomplete         bool                        `json:"incomplete,omitempty"`
 	Seconds            map[string]float64          `json:"entry_seconds"`
 }
 
@@ -611,7 +729,7 @@ func (r *Runner) report() *Report {
 	rep := &Report{Evaluations: r.evals, DistinctHashed: int64(len(r.seen)), DistinctExhaustive: r.exhaustive,
 		DistinctNontrivial: int64(len(r.seen)) + r.exhaustive, PerEntry: map[string]int64{}, PerOrigin: r.perOrigin, Verdicts: map[string]map[string]int64{},
 		ExhaustiveLen: r.exhLen, AlphabetLen: r.alphaLen, Violations: r.viol, ViolationCounts: r.perKey, Disabled: r.disabled, Samples: r.samples, Info: map[string]interface{}{},
-		AllocRetries: r.allocRetry, Seconds: map[string]float64{}}
+		AllocRetries: r.allocRetry, LateReturns: r.lateReturns, Seconds: map[string]float64{}, Errors: append([]string{}, r.unsettled...)}
 	for k, v := range r.seconds {
 		if v >= 0.5 {
 			rep.Seconds[k] = float64(int(v*10)) / 10
